@@ -3,7 +3,7 @@ HOOKS = {
     "guard": "--cfg nuts_rs_verif (H1), plus --cfg nuts_rs_verif_sched (H2) for the scheduler build",
     "enable": "RUSTFLAGS=\"--cfg nuts_rs_verif\" cargo build --release --offline in engine/seq-harness (path dependency on /repo); done by ./check",
     "baseline_off_cmd": "cd /repo && cargo test --workspace --no-fail-fast --offline",
-    "source_commits": ["2ff3719", "5e3d8a1"],
+    "source_commits": ["2ff3719", "5e3d8a1", "9d3a435"],
     "add_only": True,
 }
 NOT_APPLICABLE = {
@@ -75,3 +75,8 @@ claim("C03", "model_checking", E1,
       "Chain histories of the real NutsChain (diagonal / low-rank adaptation x Euclidean / ExactNormal, dims 0-2, maxdepth 0-3, mindepth 0/1, target_integration_time, tight/loose max_energy_error, adaptive and fixed step sizes, optional injected divergence), 2-3 draws deep, every direction and accept/reject answer within a reject budget of 2 (3): each history is replayed on an independent mirror chain whose recorded trajectories are judged by R-nuts (termination exactly when prescribed, selected index, depth, flags, number of U-turn products), and the real chain's positions, Progress and statistics (logp, gradient, energy, energy_error, depth, n_steps, index, flags) must agree bit for bit.",
       "Trusted: R-nuts; the mirror loop (nuts::draw + adapt, c03.rs) as the chain-wiring reference; momentum scripted at Math::array_gaussian; jitter off. Flow presets and MCLMC chains are covered by C05/C06/C16/C18 only.",
       "choice-tree exploration (deviation-bounded) of real chain histories over owned RNG/momentum seams, bit-exact differential oracle + reference NUTS", "4/C03")
+
+claim("C08", "model_checking", E1,
+      "The real estimators driven directly: diagonal exactness on Gaussians (d 1..6(12), condition numbers up to 1e12, every 3-/4-element draw multiset of a point lattice), low-rank whitening on rank-k perturbed covariances, every window of 3 draws x 3 gradients over the 8-value alphabet {0,1,-1,1e-300,1e300,NaN,+-inf} (524288 windows per diagonal mode, 46656 (262144) low-rank windows, all 64 initialiser inputs): scales finite and positive, log-determinant finite, invalid estimates keep the previous value bit-identically; closed loop fisher_distance after the last update.",
+      "Trusted: exact Gaussian gradients; low-rank whitening judged to 2e-3 (gamma = 1e-5 regularisation) with eigval_cutoff 1 for rank > 0 (with the default cut-off only diagonal structure is exactly representable); the transformation mean is not covered by the property and only counted.",
+      "value-alphabet exhaustive window enumeration + bounded-exhaustive draw-set enumeration on the real estimators", "4/C08")
